@@ -37,8 +37,10 @@ TRUSTED = [
     "Lean 4.33 kernel; Mathlib order lemmas; axioms ⊆ {propext, Classical.choice, Quot.sound}",
     "hand-written model FV/Model/RectSearch.lean of definecoords / enforce_bb / solve at the clause level — fidelity "
     "checked by the structure stream of this harness (captured constraint sets compared), not proved",
-    "SAT layer (satmanager.py / pseudobool.py: imply, Heule AMO, isclause, ROBDD encoding) enters the theorems as the "
-    "semantics of the abstract constraints (property C07); here it is executed, with the SAT solver (pysat/minisat22)",
+    "SAT layer (satmanager.py / pseudobool.py): composed in Lean with the C07 model (FV/Proofs/RectSat.lean, theorems "
+    "cnf_models_are_orthogons / solve_found_iff_cnf: statements about the CNF the C07 model generates); what remains "
+    "trusted is the fidelity of the C07 model to the Python SAT layer (checked by C07's own harness) and the SAT solver "
+    "(pysat/minisat22, hypothesis Sat.SolverOK); variable names: str() of distinct grid coordinates distinct (hypothesis)",
     "integer areas int(area(...)) are inputs of the model (float → int conversion not modelled); rect_io.select_box / get_alloc are "
     "not modelled in Lean: select_box is checked on its outputs (exact corners on dyadic data, a proper grid on decimal data)",
     "harness (Python) and compiled Lean driver: variable-name parsing, canonicalisation, brute-force orthogon enumerator",
